@@ -380,6 +380,7 @@ func c17(r *rt.Run) {
 		}
 		r.Finish("replay")
 	}
+	c17External(r)
 	cases := c17Cases(r.Thorough())
 	r.Extra["cases_enumerated"] = len(cases)
 	rt.ConfirmRuns = 1
@@ -388,6 +389,6 @@ func c17(r *rt.Run) {
 		r.Violate("did-not-return", fmt.Sprintf("[%s] evaluation with a fact limit did not return: %s", label, how),
 			map[string]any{"program": c.name, "source": c.src, "seed": c.seed, "limit": c.limit, "store": c.store, "opt": c.opt})
 	})
-	r.Finish("pool D: 21 program shapes (counters, guarded counters, list growth, pair nesting, let-transform counters, wide joins, divergence below negation / feeding aggregation, wrapping doubling, mutual counters, fan-out) and pairs of shapes, " +
+	r.Finish("5 programs over an external relation (5 and 20 rows, 1-2 seeds) under every limit 1..30 against their unlimited evaluation; pool D: 21 program shapes (counters, guarded counters, list growth, pair nesting, let-transform counters, wide joins, divergence below negation / feeding aggregation, wrapping doubling, mutual counters, fan-out) and pairs of shapes, " +
 		"x 3 seeds (and 11 fan-out / aggregation shapes over a 60-fact relation x limits {1,2,3,5,8}) x every limit in {1..12,16,32,100} x store kinds (exact count, over-estimating merged store), single shapes also x {temporal store configured (empty / 3 facts), deterministic order}; non-trivial = program with an infinite model; distinct by construction")
 }
